@@ -8,8 +8,29 @@ mode bits: 1 = run() raises, 2 = worker dies (implemented by the fake process la
 value; the model carries it as NONE_CODE), 32 = run() raises iff the Lab context value is odd (a failure
 that depends on the call, not on the task), 64 = the raised exception is chained (`raise … from …`), 128 = (real process backends only) the worker
 process outlives run() because a non-daemon thread is still busy.
+
+Harness-only bits (masked out of the line sent to the Lean model, MODEL_BITS; for the model such a task is
+just a failing / a succeeding task):
+256 = (with bit 1) HOW the task fails: instead of raising itself the body writes a bytes object to sys.stdout - a
+TypeError inside run() on every text stream (the worker's LoggerFileProxy, the serial runner's real stdout). Should
+the stream accept the write, nothing else in the body fails.
+512|1024|2048 = (real backends only) what the body prints before it returns, OUT_PATTERNS[(mode >> 9) & 7].
+
+Type classes: T0, T1, T2 are independent task types. S1, S2 are the classes used when a case declares a type as
+a RE-DECORATED SUBCLASS of another type (`case['sub']`): `declare_subtype` builds them the way a user would,
+`@labtech.task(cache=..., max_parallel=...) class S1(T0): ...`, and installs them under their module-level name
+(so that pickled thunks find them; a really spawned interpreter finds the import-time S1/S2 below, the per-case
+configuration travels inside the task's pickled state).
+
+In REAL mode the body also records `E k pid` when run() is entered and `Q k` when it is left (normally or by an
+exception; a killed worker leaves none), so that a hung run can be examined: which bodies were executing, which
+runnable tasks were never started.
+After the X record the body reads `.result` of every task object it holds only INDIRECTLY (a dependency of a direct
+dependency) and records those that answered in EXEC_LOG + '.ind' (`G k g:value,...`): the task monitor of C17 flags
+an answer for a result that had been released by then.
 """
 import os
+import sys
 
 from frozendict import frozendict
 
@@ -22,15 +43,20 @@ NONE_CODE = 999999   # how the model and the observation strings spell a result 
 MISSING = object()
 LINGER_S = 4.0
 
+MODEL_BITS = 255     # the mode bits the Lean run model knows
+OUT_SHIFT = 9
+LONG_LINE = 40961    # longer than any plausible chunking threshold of a stream proxy; no line break in it
+OUT_PATTERNS = (None, 'short', 'stderr', 'many', 'long', 'blank', 'mixed', 'long-stderr')
+
 EXT_HOOK = None   # callable(k): an 'external writer' acting while task k runs (another Lab on the same storage)
 EXEC_LOG = None  # path; set by the harness before a case runs (inherited by forked helpers)
 REAL = False     # real-backend runs: tasks sleep a little, record wall-clock spans, dying tasks kill themselves
 
 
-def log_line(line):
+def log_line(line, suffix=''):
     path = EXEC_LOG or os.environ.get('VERIF_DAG_EXEC_LOG')  # a really spawned interpreter has no parent globals
     if path is not None:
-        fd = os.open(path, os.O_WRONLY | os.O_APPEND | os.O_CREAT)
+        fd = os.open(path + suffix, os.O_WRONLY | os.O_APPEND | os.O_CREAT)
         try:
             os.write(fd, (line + '\n').encode())
         finally:
@@ -57,9 +83,59 @@ class RecPickleCache(PickleCache):
         return super().load_result_with_meta(storage, task)
 
 
+def emit(pattern, k):
+    """what a task body prints (real backends): through print and through direct writes, to both streams"""
+    if pattern == 'short':
+        print(f'task {k} says hello')
+    elif pattern == 'stderr':
+        print(f'task {k} warns', file=sys.stderr)
+        sys.stderr.write('no newline at the end')
+    elif pattern == 'many':
+        for i in range(400):
+            print(f'task {k} line {i} ' + 'x' * (i % 90))      # far more than 32 KiB in all, every line short
+    elif pattern == 'long':
+        sys.stdout.write('%d:' % k + 'y' * LONG_LINE)           # ONE line, no line break anywhere
+    elif pattern == 'long-stderr':
+        sys.stderr.write('z' * LONG_LINE)
+        sys.stderr.write('\n')
+    elif pattern == 'blank':
+        for w in ('', ' ', '\n', '\t\n  ', '\r\n'):
+            sys.stdout.write(w)
+            sys.stderr.write(w)
+    elif pattern == 'mixed':
+        print(f'task {k}', end='')
+        sys.stdout.write('\n\n')
+        print('é ∑ 漢 \x00 %s %d', file=sys.stderr)
+        sys.stdout.write('w' * LONG_LINE + '\nlast')
+        sys.stdout.flush()
+
+
+def indirect_objects(value):
+    """task objects this task holds only through a direct dependency (one level down), de-duplicated by identity"""
+    direct = dep_objects(value)
+    ids = {id(d) for d in direct}
+    out = []
+    for d in direct:
+        for g in dep_objects(d.deps):
+            if id(g) not in ids:
+                ids.add(id(g))
+                out.append(g)
+    return out
+
+
 def _run(self):
-    import time
     real = REAL or bool(os.environ.get('VERIF_DAG_REAL'))
+    if not real:
+        return _body(self, False)
+    log_line('E %d %d' % (self.k, os.getpid()))
+    try:
+        return _body(self, True)
+    finally:
+        log_line('Q %d' % self.k)
+
+
+def _body(self, real):
+    import time
     if real:
         t_start = time.time()
         if self.mode & 2:
@@ -84,8 +160,23 @@ def _run(self):
         except TaskError:
             reads.append(MISSING)
     log_line('X %d %s' % (self.k, ','.join('-' if r is MISSING else str(r) for r in reads)))
+    answered = []
+    for g in indirect_objects(self.deps):
+        try:
+            r = g.result
+            answered.append('%d:%s' % (g.k, NONE_CODE if r is None else r))
+        except Exception:
+            pass
+    if answered:
+        log_line('G %d %s' % (self.k, ','.join(answered)), '.ind')
     ctx = (self.context or {}).get('c', 0)
-    if (self.mode & 1) or ((self.mode & 32) and ctx % 2 == 1):
+    fails = bool((self.mode & 1) or ((self.mode & 32) and ctx % 2 == 1))
+    if real and (self.mode >> OUT_SHIFT) & 7:
+        emit(OUT_PATTERNS[(self.mode >> OUT_SHIFT) & 7], self.k)
+    if fails and (self.mode & 256):
+        sys.stdout.write(b'raw bytes of task %d' % self.k)    # TypeError: this IS the failure of the task
+        fails = False                                         # the stream took it: nothing else fails in this body
+    if fails:
         if self.mode & 64:
             try:
                 raise KeyError('inner cause')
@@ -125,4 +216,35 @@ class T2:
     run = _run
 
 
+@labtech.task
+class S1(T0):
+    run = _run
+
+
+@labtech.task
+class S2(T0):
+    run = _run
+
+
 TYPES = [T0, T1, T2]
+BASE_TYPES = (T0, T1, T2)
+
+
+def declare_subtype(index, base, *, cache, max_parallel):
+    """type `index` of the current case is a re-decorated subclass of the task type `base`:
+
+        @labtech.task(cache=cache, max_parallel=max_parallel)
+        class S<index>(base):
+            run = _run
+
+    (a class statement as a user writes it; the name is bound at module level as a class statement at module
+    level would)"""
+    name = 'S%d' % index
+    namespace = {'run': _run, '__module__': __name__, '__qualname__': name}
+    cls = labtech.task(cache=cache, max_parallel=max_parallel)(type(name, (base,), namespace))
+    globals()[name] = cls
+    return cls
+
+
+def type_names(index):
+    return ('T%d' % index, 'S%d' % index)
